@@ -211,3 +211,55 @@ package midix
 //@   loop 1 invariant forall(j, 0, len(key), onAt(w, j, ite(j == 0, old(w.tickDelta), 0)))
 //@   loop 1 invariant forall(j, 0, rangeindex + 1, offAt(w, j, ite(j == 0, spec.ticks(w.quoaterNoteTicks, value), 0)))
 //@   loop 1 decreases len(key) - rangeindex
+
+// ---- the Writer interface: history of calls (ghostWriter) ----
+
+//@ define gw(w) ghost(ghostWriter, w)
+
+//@ iface Writer.Rest (w, value)
+//@   modifies ghostWriter
+//@   requires w != nil
+//@   ghostensures gw(w) == upd(upd(upd(old(gw(w)), "NN", old(gw(w).NN) + 1), "IsRest", store(old(gw(w).IsRest), old(gw(w).NN), true)), "Value", store(old(gw(w).Value), old(gw(w).NN), value))
+
+//@ iface Writer.Note (w, value, velocity, key) returns (err)
+//@   modifies ghostWriter
+//@   requires w != nil
+//@   ensures (err == nil) == (len(key) > 0)
+//@   ghostensures err != nil ==> gw(w) == old(gw(w))
+//@   ghostensures err == nil ==> gw(w) == upd(upd(upd(upd(upd(upd(old(gw(w)), "NN", old(gw(w).NN) + 1), "IsRest", store(old(gw(w).IsRest), old(gw(w).NN), false)), "Value", store(old(gw(w).Value), old(gw(w).NN), value)), "Vel", store(old(gw(w).Vel), old(gw(w).NN), velocity)), "KeysLen", store(old(gw(w).KeysLen), old(gw(w).NN), len(key))), "Keys", store(old(gw(w).Keys), old(gw(w).NN), gw(w).Keys[old(gw(w).NN)]))
+//@   ghostensures err == nil ==> forall(j, 0, len(key), gw(w).Keys[old(gw(w).NN)][j] == key[j])
+
+//@ iface Writer.Tempo (w, bpm)
+//@   modifies ghostWriter
+//@   requires w != nil
+//@   ghostensures gw(w) == upd(upd(old(gw(w)), "TempoCnt", store(old(gw(w).TempoCnt), old(gw(w).NN), old(gw(w).TempoCnt[gw(w).NN]) + 1)), "TempoVal", store(old(gw(w).TempoVal), old(gw(w).NN), bpm))
+
+//@ iface Writer.Meter (w, num, denom)
+//@   modifies ghostWriter
+//@   requires w != nil
+//@   ghostensures gw(w) == upd(upd(upd(old(gw(w)), "MeterCnt", store(old(gw(w).MeterCnt), old(gw(w).NN), old(gw(w).MeterCnt[gw(w).NN]) + 1)), "MeterNum", store(old(gw(w).MeterNum), old(gw(w).NN), num)), "MeterDen", store(old(gw(w).MeterDen), old(gw(w).NN), denom))
+
+//@ iface Writer.Key (w, key, isMajor, num, isFlat)
+//@   modifies ghostWriter
+//@   requires w != nil
+//@   ghostensures gw(w) == upd(upd(upd(upd(upd(old(gw(w)), "KeyCnt", store(old(gw(w).KeyCnt), old(gw(w).NN), old(gw(w).KeyCnt[gw(w).NN]) + 1)), "KeyKey", store(old(gw(w).KeyKey), old(gw(w).NN), key)), "KeyMajor", store(old(gw(w).KeyMajor), old(gw(w).NN), isMajor)), "KeyNum", store(old(gw(w).KeyNum), old(gw(w).NN), num)), "KeyFlat", store(old(gw(w).KeyFlat), old(gw(w).NN), isFlat))
+
+//@ iface Writer.Text (w, text)
+//@   modifies ghostWriter
+//@   requires w != nil
+//@   ghostensures gw(w) == upd(upd(old(gw(w)), "TextCnt", store(old(gw(w).TextCnt), old(gw(w).NN), old(gw(w).TextCnt[gw(w).NN]) + 1)), "TextVal", store(old(gw(w).TextVal), old(gw(w).NN), text))
+
+//@ iface Writer.Lyric (w, text)
+//@   modifies ghostWriter
+//@   requires w != nil
+//@   ghostensures gw(w) == upd(upd(old(gw(w)), "LyricCnt", store(old(gw(w).LyricCnt), old(gw(w).NN), old(gw(w).LyricCnt[gw(w).NN]) + 1)), "LyricVal", store(old(gw(w).LyricVal), old(gw(w).NN), text))
+
+//@ iface Writer.Marker (w, text)
+//@   modifies ghostWriter
+//@   requires w != nil
+//@   ghostensures gw(w) == upd(upd(old(gw(w)), "MarkerCnt", store(old(gw(w).MarkerCnt), old(gw(w).NN), old(gw(w).MarkerCnt[gw(w).NN]) + 1)), "MarkerVal", store(old(gw(w).MarkerVal), old(gw(w).NN), text))
+
+//@ iface Writer.Close (w)
+//@   modifies ghostWriter
+//@   requires w != nil
+//@   ghostensures gw(w) == upd(upd(old(gw(w)), "CloseCnt", old(gw(w).CloseCnt) + 1), "CloseAt", old(gw(w).NN))
